@@ -16,11 +16,20 @@ use serde_json::{json, Value};
 
 pub struct C05 {
     pub ctx: WorldCtx,
+    sweep: Vec<(Exp, Dir, usize)>,
 }
 
 impl C05 {
     pub fn new() -> C05 {
-        C05 { ctx: WorldCtx::new() }
+        let mut sweep = Vec::new();
+        for e in Exp::ALL {
+            for d in [Dir::Client, Dir::Server] {
+                for l in crate::c02::sweep_lengths(e, d) {
+                    sweep.push((e, d, l));
+                }
+            }
+        }
+        C05 { ctx: WorldCtx::new(), sweep }
     }
 }
 
@@ -43,7 +52,7 @@ impl Check for C05 {
         "exploration"
     }
     fn rule(&self) -> String {
-        "Each run is one simulated encrypted session in one direction: 2-16 world messages (model-peer frames decoded to library values, plus WARDEN_DATA messages of chosen lengths placed around the Wrath 2/3-byte header boundary, plus compressed messages, which override the encrypted writers) are written with write_encrypted_* (sync/tokio/async-std over a scheduled SimPipe) using real wow_srp cipher halves made from a per-run 40-byte session key, and in parallel with the plain writers onto a shadow stream; the ciphertext is read with read_encrypted / expect_*_message_encryption under a scheduled chunking. Non-trivial: at least two messages were decrypted in sequence, or a delivery boundary fell inside a message; distinct = distinct event-log hashes.".into()
+        "Each run is one simulated encrypted session in one direction: 2-16 world messages (model-peer frames decoded to library values, plus WARDEN_DATA messages of chosen lengths placed around the Wrath 2/3-byte header boundary, plus compressed messages, which override the encrypted writers) are written with write_encrypted_* (sync/tokio/async-std over a scheduled SimPipe) using real wow_srp cipher halves made from a per-run 40-byte session key, and in parallel with the plain writers onto a shadow stream; the ciphertext is read with read_encrypted / expect_*_message_encryption under a scheduled chunking. Enumerated part: every body length around every header-form boundary (the length sweep of C02) as the middle message of a three-message encrypted sequence, through each reader flavour and both entry points. Non-trivial: at least two messages were decrypted in sequence, or a delivery boundary fell inside a message; distinct = distinct event-log hashes.".into()
     }
     fn assumptions(&self) -> Vec<String> {
         vec![
@@ -58,16 +67,34 @@ impl Check for C05 {
                "not_exercised": ["SRP key agreement itself (session key is chosen by the simulator)"]})
     }
     fn plan(&self, tier: Tier) -> (u64, u64) {
-        (0, match tier {
+        (self.sweep.len() as u64 * 6, match tier {
             Tier::Quick => env_u64("VERIF_C05_RUNS", 40_000),
             Tier::Thorough => env_u64("VERIF_C05_RUNS", 2_000_000),
         })
     }
-    fn gen(&self, _i: u64, seed: u64, _tier: Tier) -> Value {
+    fn gen(&self, i: u64, seed: u64, _tier: Tier) -> Value {
         let rng = Rng::new(seed);
         let mut wl = rng.fork("workload");
         let mut sr = rng.fork("schedule");
         let mut cf = rng.fork("config");
+        if i < self.sweep.len() as u64 * 6 {
+            // enumerated: every body length around every header-form boundary, as the MIDDLE message of an encrypted
+            // sequence, through each reader flavour and both entry points (the writer flavour rotates along)
+            let (exp, dir, len) = self.sweep[(i / 6) as usize];
+            let combo = i % 6;
+            let fl = [Flavour::Sync, Flavour::Tokio, Flavour::Astd][(combo % 3) as usize];
+            let wfl = [Flavour::Astd, Flavour::Sync, Flavour::Tokio][(combo % 3) as usize];
+            let entry = if combo < 3 { "enum" } else { "expect" };
+            let m = self.ctx.model(exp);
+            let (frames, names) = gen_frames(m, exp, dir, &mut wl, 2, &Knobs { avoid_cond_flag_branches: 100, ..Knobs::default() });
+            let total = len + 256;
+            let ws = if combo % 2 == 0 { Schedule::whole() } else { Schedule::random(&mut sr, total, wfl == Flavour::Sync) };
+            let rs = if i % 4 == 0 { Schedule::whole() } else { Schedule::random(&mut sr, total, fl == Flavour::Sync) };
+            let key = key_of(&mut cf);
+            return json!({"kind": "sweep", "wrong_expect": [], "label": format!("{}:{}:len={:#x}", exp.name(), dir.name(), len),
+                "exp": exp.name(), "dir": dir.name(), "frames": frames, "names": names, "warden": [[1, len]], "key": hex(&key),
+                "wflavour": wfl.name(), "rflavour": fl.name(), "rentry": entry, "wsched": sched_json(&ws), "rsched": sched_json(&rs)});
+        }
         let exp = *cf.pick(&Exp::ALL);
         let dir = if cf.chance(1, 2) { Dir::Client } else { Dir::Server };
         let m = self.ctx.model(exp);
